@@ -64,6 +64,9 @@ func (n *UnaryExpressionNode) String() string {
 	parens := ExpressionPrecedence(n) > ExpressionPrecedence(n.Right)
 	if parens {
 		buff.WriteRune('(')
+	} else if _, ok := n.Right.(*UnaryExpressionNode); ok {
+		// keep nested prefix operators apart, `- -a` must not become `--a`
+		buff.WriteRune(' ')
 	}
 	buff.WriteString(n.Right.String())
 	if parens {
